@@ -45,6 +45,9 @@ CLAIMED = {
  "C11": dict(technique="static analysis: sibling comparison of the character-class predicates and constants used by the byte-level tokenizer and the two rune-level parsers, case-mapping class rule, forced case-sensitivity of _exists_ in both parsers, enum coverage of registered tokenizer types by the parsers' switches, provenance of the case flag, alias rule for tokenizer helpers",
              text="The two independently written tokenizations are compared where they must say the same thing (which runes continue a word, how case is folded, which index types are searchable). A disagreement is exactly a token the query side cannot produce. Size limits, path prefixes and quoting styles are input-space and not decided.",
              note="Trusted: go/ssa; unicode predicates compared by identity.", ref="§3 C11"),
+ "C17": dict(technique="static analysis: dominance order and provenance in the append worker (filter before ids/tokens/stats), field-coverage of the duplicate filter, exclusive-prefix-sum shape of the token offsets, lockset rule that SetMultiple decides and stores under one write-lock hold, first-writer-wins dominance rule, dedup-before-cut order in MergeQPRs",
+             text="The mechanisms that keep a re-delivered document single (atomic first-writer-wins, filtering the collector before anything is indexed, rebuilding all per-document columns, de-duplicating merged results before the cut) are decided structurally on all paths. Arithmetic details of the filter and effects on aggregations are not decided.",
+             note="Trusted: go/ssa; lock identity by access path.", ref="§3 C17"),
 }
 
 NOT_YET = "check not built yet in this round (planned in DESIGN.md §3); nothing is claimed for it"
